@@ -232,6 +232,48 @@ pub fn gen_readers(rng: &mut Rng, thorough: bool, op: u32, out: &mut Cases) {
             }
         }
     }
+    // streams longer than the default 10 MiB BufReader (op 43): 161-163 maximum-length records, so that records
+    // start shortly before / at / behind every refill mark; everything is filtered out to keep the output small
+    {
+        let f = DltFilterConfig { min_log_level: None, app_ids: Some(vec![]), ecu_ids: None, context_ids: None, app_id_count: 1, context_id_count: 0 };
+        // (with 16 + 65520 = 2^16 the 160th record starts exactly 2^16 bytes before the 10 MiB mark)
+        // a first record of another length shifts where the long ones lie relative to the refill marks: the sweep puts
+        // the start of a maximum-length record at every offset 65535..65551 (and around) before the 10 MiB mark
+        let cap = 10usize * 1024 * 1024;
+        let mut shapes: Vec<(bool, u128, u128, u128)> = vec![(true, 0, 65535, 162), (true, 0, 65520, 161), (false, 0, 65535, 163), (true, 0, 65534, 170)];
+        if !thorough {
+            shapes.truncate(2);
+        }
+        for sh in [true, false] {
+            let storage = if sh { 16usize } else { 0 };
+            let total = storage + 65535;
+            let k = (cap - total) / total; // long records in front of the one that meets the mark
+            for d in (65530usize..=65556).step_by(if thorough { 1 } else { 3 }) {
+                // first record ends at cap - d - k * total
+                let first_total = cap as i64 - d as i64 - (k * total) as i64;
+                if first_total > (storage + 4) as i64 && first_total <= total as i64 {
+                    shapes.push((sh, (first_total as usize - storage) as u128, 65535, k as u128 + 3));
+                }
+            }
+        }
+        for (k, (sh, l1, l, nrec)) in shapes.iter().enumerate() {
+            let mut w = W::new();
+            w.bool(op == 41);
+            w.bool(*sh);
+            w.opt_filter(&Some(f.clone()));
+            w.n(0);
+            let sched: Vec<u64> = if k % 2 == 0 { vec![] } else { vec![1 << 20, 0, 3, 1 << 23] };
+            w.n(sched.len() as u128);
+            for x in &sched {
+                w.n(*x as u128);
+            }
+            w.n(*l1);
+            w.n(*nrec);
+            w.n(*l);
+            w.b(&[0x20, 1, 0, 8, 1, 2, 3, 4][..if k % 2 == 0 { 8 } else { 5 }]);
+            out.push(43, w);
+        }
+    }
     // a maximum-length record that is NOT the first one, with a fragment of the source ending 1..17 bytes before its
     // end (and before its start): whatever is already buffered then is almost, but not quite, the whole record
     for sh in [true, false] {
